@@ -189,6 +189,158 @@ for _form in ("list", "tuple"):
 UNITS.append(("FieldCollection.from_data", from_data_unit(True)))
 
 
+class _Json:
+    """json.dumps / json.loads as an injective constructor and its inverse on the values that occur in field
+    attributes (None, strings incl. the empty one, class names, dtype strings)"""
+
+    def __init__(self, payload):
+        self.payload = payload
+
+
+def field_attributes_unit(clsname, label):
+    """the real FieldBase.attributes / attributes_serialized / unserialize_attributes (class dispatch through
+    FieldBase._subclasses) / DataFieldBase.from_state: the constructor of the SAME class is called with the grid
+    restored from the serialised grid state, the data array given, and exactly the label (None, '' and names are
+    different labels) and dtype of the original.  Contracts used: GridBase.state_serialized / from_state (units
+    above), the field constructor (C15), json as an injective encoding."""
+    def unit(U):
+        def body(it):
+            from ..builtins_model import StubModule
+            it.stub_modules["json"] = StubModule("json", {"dumps": lambda x, **kw: _Json(x), "loads": lambda x, **kw: x.payload})
+            mod = it.load_module("pde.fields")
+            base = it.module_attr(it.load_module("pde.fields.base"), "FieldBase")
+            cls = it.module_attr(mod, clsname)
+            # the class registry as FieldBase.__init_subclass__ fills it: every field class under its own name
+            registry = {c: it.module_attr(mod, c) for c in ("ScalarField", "VectorField", "Tensor2Field", "FieldCollection")}
+            base.members["_subclasses"] = ("val", registry)
+            grid = Instance(None, {"state_serialized": "<serialised state of the grid>"}, name="grid")
+            dtype = Instance(None, {"str": "<dtype string>"}, name="dtype")
+            data = Instance(None, {"dtype": dtype}, name="data array")
+            f = Instance(cls, {"grid": grid, "_label": label, "_data_valid": data, "data": data})
+            restored_grids, built = [], []
+
+            def grid_from_state(interp, args, kw):
+                g = Instance(None, {"restored_from": args[-1]}, name="restored grid")
+                restored_grids.append(g)
+                return g
+
+            it.contracts[("pde.grids.base", "GridBase.from_state")] = grid_from_state
+            for c in ("ScalarField", "VectorField", "Tensor2Field"):
+                def ctor(interp, args, kw, _c=c):
+                    built.append((_c, args, kw))
+                    return None
+                it.contracts[("pde.fields.datafield_base", f"DataFieldBase.__init__")] = ctor
+            ser = it.getattr(f, "attributes_serialized")
+            attrs = it.call(it.getattr(base, "unserialize_attributes"), [dict(ser)], {})
+            new_data = Instance(None, {}, name="data given to from_state")
+            f2 = it.call(it.getattr(base, "from_state"), [attrs], {"data": new_data})
+            return f, f2, cls, grid, dtype, new_data, restored_grids, built, ser
+
+        for p, res in enumerate(explore_paths(U, body)):
+            P = prem_of(res.ctx)
+            nm = f"path{p}"
+            if res.outcome != "return":
+                U.prove(f"{nm}.round_trip_returns_normally", P, z3.BoolVal(False), info={"exc": str(res.exc)})
+                continue
+            f, f2, cls, grid, dtype, new_data, restored_grids, built, ser = res.value
+            U.prove(f"{nm}.an_object_of_the_same_class_is_built", P, z3.BoolVal(isinstance(f2, Instance) and f2.cls is cls and len(built) == 1))
+            if len(built) != 1:
+                continue
+            _c, args, kw = built[0]
+            allargs = dict(kw)
+            names = ["self", "grid", "data"]
+            for k, v in zip(names, args):
+                allargs[k] = v
+            U.prove(f"{nm}.grid_restored_from_the_serialised_grid_state", P, z3.BoolVal(len(restored_grids) == 1 and allargs.get("grid") is restored_grids[0]
+                                                                                       and restored_grids[0].attrs["restored_from"] == "<serialised state of the grid>"))
+            got = allargs.get("label", "<<missing>>")
+            U.prove(f"{nm}.label_identical", P, z3.BoolVal((got is None and label is None) or (isinstance(got, str) and isinstance(label, str) and got == label)),
+                    info={"label": repr(label), "restored": repr(got)})
+            U.prove(f"{nm}.dtype_identical", P, z3.BoolVal(allargs.get("dtype") == "<dtype string>"))
+            U.prove(f"{nm}.data_handed_on", P, z3.BoolVal(allargs.get("data") is new_data))
+            U.assume_note("class registry FieldBase._subclasses = {class name: class} as filled by __init_subclass__ (read from the code, trusted); json.dumps / loads inverse on None, strings and dtype strings")
+            U.prove(f"{nm}.nothing_else_passed", P, z3.BoolVal(set(allargs) <= {"self", "grid", "data", "label", "dtype"}), info={"args": sorted(allargs)})
+
+    return unit
+
+
+UNITS += [(f"{c}.attributes_roundtrip[label={l!r}]", field_attributes_unit(c, l)) for c in ("ScalarField", "VectorField", "Tensor2Field") for l in (None, "", "c 1")]
+
+def collection_attributes_unit(label):
+    """the same for FieldCollection: attributes_serialized -> unserialize_attributes -> from_state(data=None) calls the
+    collection constructor with members of the same classes in the same order, each with its own label and dtype and a
+    grid restored from its serialised state, and with the label and dtype of the collection (the data leg of
+    from_state -- assigning the flat array -- is covered by the bounded check and the from_data unit)"""
+    def unit(U):
+        def body(it):
+            from ..builtins_model import StubModule
+            it.stub_modules["json"] = StubModule("json", {"dumps": lambda x, **kw: _Json(x), "loads": lambda x, **kw: x.payload})
+            mod = it.load_module("pde.fields")
+            base = it.module_attr(it.load_module("pde.fields.base"), "FieldBase")
+            registry = {c: it.module_attr(mod, c) for c in ("ScalarField", "VectorField", "Tensor2Field", "FieldCollection")}
+            base.members["_subclasses"] = ("val", registry)
+            grid = Instance(None, {"state_serialized": "<serialised state of the grid>"}, name="grid")
+            members = []
+            for k, (c, lab) in enumerate((("ScalarField", ""), ("VectorField", None), ("ScalarField", "s 2"))):
+                dt = Instance(None, {"str": f"<dtype string {k}>"}, name="dtype")
+                d = Instance(None, {"dtype": dt}, name="data array")
+                members.append(Instance(registry[c], {"grid": grid, "_label": lab, "data": d}))
+            cdt = Instance(None, {"str": "<dtype string of the collection>"}, name="dtype")
+            coll = Instance(registry["FieldCollection"], {"_fields": members, "_label": label, "data": Instance(None, {"dtype": cdt}, name="data array"), "grid": grid})
+            restored_grids, built = [], []
+
+            def grid_from_state(interp, args, kw):
+                g = Instance(None, {"restored_from": args[-1]}, name="restored grid")
+                restored_grids.append(g)
+                return g
+
+            it.contracts[("pde.grids.base", "GridBase.from_state")] = grid_from_state
+            it.contracts[("pde.fields.datafield_base", "DataFieldBase.__init__")] = lambda interp, args, kw: built.append(("member", args, kw))
+            it.contracts[("pde.fields.collection", "FieldCollection.__init__")] = lambda interp, args, kw: built.append(("collection", args, kw))
+            ser = it.getattr(coll, "attributes_serialized")
+            attrs = it.call(it.getattr(base, "unserialize_attributes"), [dict(ser)], {})
+            c2 = it.call(it.getattr(base, "from_state"), [attrs], {"data": None})
+            return coll, c2, registry, members, restored_grids, built
+
+        for p, res in enumerate(explore_paths(U, body)):
+            P = prem_of(res.ctx)
+            nm = f"path{p}"
+            if res.outcome != "return":
+                U.prove(f"{nm}.round_trip_returns_normally", P, z3.BoolVal(False), info={"exc": str(res.exc)})
+                continue
+            coll, c2, registry, members, restored_grids, built = res.value
+            mem = [b for b in built if b[0] == "member"]
+            col = [b for b in built if b[0] == "collection"]
+            U.prove(f"{nm}.a_collection_with_three_new_members_is_built", P, z3.BoolVal(isinstance(c2, Instance) and c2.cls is registry["FieldCollection"] and len(mem) == 3 and len(col) == 1))
+            if len(mem) != 3 or len(col) != 1:
+                continue
+            for k, (orig, (_, args, kw)) in enumerate(zip(members, mem)):
+                a = dict(kw)
+                for n_, v in zip(["self", "grid", "data"], args):
+                    a[n_] = v
+                lab, got = orig.attrs["_label"], a.get("label", "<<missing>>")
+                U.prove(f"{nm}.member{k}.same_class_label_dtype_and_restored_grid", P, z3.BoolVal(
+                    isinstance(a.get("self"), Instance) and a["self"].cls is orig.cls and ((got is None and lab is None) or (isinstance(got, str) and isinstance(lab, str) and got == lab))
+                    and a.get("dtype") == f"<dtype string {k}>" and a.get("grid") in restored_grids and a["grid"].attrs["restored_from"] == "<serialised state of the grid>"),
+                    info={"label": repr(lab), "restored": repr(got), "dtype": repr(a.get("dtype"))})
+            _, args, kw = col[0]
+            a = dict(kw)
+            for n_, v in zip(["self", "fields"], args):
+                a[n_] = v
+            got = a.get("label", "<<missing>>")
+            U.prove(f"{nm}.collection.members_in_order", P, z3.BoolVal(isinstance(a.get("fields"), list) and [f.cls for f in a["fields"] if isinstance(f, Instance)] == [m.cls for m in members]
+                                                                       and all(f is b[1][0] for f, b in zip(a["fields"], mem))))
+            U.prove(f"{nm}.collection.label_identical", P, z3.BoolVal((got is None and label is None) or (isinstance(got, str) and isinstance(label, str) and got == label)),
+                    info={"label": repr(label), "restored": repr(got)})
+            U.prove(f"{nm}.collection.dtype_identical", P, z3.BoolVal(a.get("dtype") == "<dtype string of the collection>"), info={"dtype": repr(a.get("dtype"))})
+            U.prove(f"{nm}.collection.members_are_not_copied_again", P, z3.BoolVal(a.get("copy_fields") is False))
+        U.assume_note("class registry FieldBase._subclasses as filled by __init_subclass__ (trusted); json.dumps / loads inverse on None, strings, lists and dicts of those")
+
+    return unit
+
+
+UNITS += [(f"FieldCollection.attributes_roundtrip[label={l!r}]", collection_attributes_unit(l)) for l in (None, "", "coll")]
+
 def bounded(tier, seed):
     from ..runner import native
 
